@@ -74,12 +74,12 @@ def fragment_pre(shape) -> list:
     pre = []
     for ri, (p, cs) in enumerate(R.relations_of(shape)):
         k = len(cs)
-        pre.append(('0 <= a%d <= 1 and b%d == 1' % (ri, ri)) if k == 1 else ('0 <= a%d <= b%d <= %d and b%d >= 1' % (ri, ri, k, ri)))
+        pre.append(('0 <= a%d <= 1 and b%d == 1' % (ri, ri)) if k == 1 else ('0 <= a%d <= b%d <= %d' % (ri, ri, k)))
     return pre
 
 
 def fragment_cards(shape):
-    opts = [([(0, 1), (1, 1)] if len(cs) == 1 else [(a, b) for a in range(len(cs) + 1) for b in range(max(a, 1), len(cs) + 1)]) for _, cs in R.relations_of(shape)]
+    opts = [([(0, 1), (1, 1)] if len(cs) == 1 else [(a, b) for a in range(len(cs) + 1) for b in range(a, len(cs) + 1)]) for _, cs in R.relations_of(shape)]      # groups: every 0 <= a <= b <= k, also [0,0]
     return [list(c) for c in itertools.product(*opts)]
 
 
@@ -406,6 +406,7 @@ def batches(tier, seed):
     st = nt // 12 + 1
     b += [('batch_trees', [lo, lo + st, full]) for lo in range(0, nt, st)]
     b.append(('batch_dups', []))
+    b += [('batch_impl_pairs', [lo, lo + 324]) for lo in range(0, 1296, 324)]
     return b
 
 
@@ -415,7 +416,7 @@ def _noop():
 
 def info(tier):
     return {
-        'assumptions': ['AFM fragment: feature names are WORD tokens ([A-Z][A-Za-z0-9]*, not a keyword), attribute names LOWERCASE tokens, single children mandatory/optional, groups [a,b] with 0<=a<=b<=k, b>=1; integer-range domains with non-negative bounds or enumerated domains; default/null values as texts',
+        'assumptions': ['AFM fragment: feature names are WORD tokens ([A-Z][A-Za-z0-9]*, not a keyword), attribute names LOWERCASE tokens, single children mandatory/optional, groups [a,b] with 0<=a<=b<=k (also [0,0]); integer-range domains with non-negative bounds or enumerated domains; default/null values as texts',
                         'the order of the relations of one parent is not carried by the format (single children are read before groups): trees are compared without that order; from the first read on nothing changes any more',
                         'token substitution on the real AFM parse tree; WORD contract validated against the installed lexer',
                         'constraint names are not carried by the format'],
@@ -433,6 +434,10 @@ def replay_dups(k):
         return ['%s | constraints %r' % (b[:400], rt.DUP_CTC_SETS[k]) for b in afmio.file_roundtrip(m)]
     except Exception as exc:
         return ['round trip raises %s: %s (constraints %r)' % (type(exc).__name__, exc, rt.DUP_CTC_SETS[k])]
+
+
+def batch_impl_pairs(lo, hi):
+    return rt.impl_pairs_batch(__name__, lo, hi, 'afm-constraint-roundtrip')
 
 
 def batch_dups():
